@@ -144,3 +144,16 @@ CHECKS["C04"] = {
     "note": ("The exhaustive sweep of concrete values through emit+parse is not run. The tokenizer model (pattern order, '+' special case, identifier scanner shape) is bound to the code by shape "
              "checks that fail closed (exit 2). Not decided: NFC interaction, PATTERN/REGEX force-quoting, how the parser groups the tokens of multi-word values."),
 }
+
+CHECKS["C08"] = {
+    "technique": "static analysis: shape rules on the chain evaluator and each member (CFG dominance, return classification, comparator normal forms, interval reasoning), purity (effect) analysis of members, registry exhaustiveness, policy dispatch table, severity dataflow to the INVALID decision",
+    "text": ("Decides: ConstraintChain.evaluate checks conflicts first and rejects on any; its loop evaluates every member on the chain's own unmodified (value, path) as the first step of every "
+             "iteration, returns the first failing result, and the only accepting return follows the completed loop; no member's evaluate writes self or the value (members commute, so the verdict is "
+             "order-independent); RANGE rejects exactly v<min or v>max, MAX/MIN_LENGTH reject len>max / len<min after rejecting non str|list, REQ rejects exactly None and \"\", CONST rejects by !=; bool tests "
+             "precede numeric tests; every Constraint subclass is constructible from parse and unknown keywords raise; detect_conflicts reports the three documented conflicts from order-free existence tests; "
+             "ENUM accepts exact members first, candidates are startswith-prefixes, 0 -> E005, >1 -> E006, 1 accepts; unknown-field policy dispatch has the documented severities, names the field, reports "
+             "every unknown field, falls back/defaults to REJECT; REQ-missing is `has_req and value is None` -> E003 naming the field; all chain errors are reported; severity-warning entries are "
+             "filtered before any INVALID decision (violated on the pinned tree: repaired by a fix: commit)."),
+    "note": ("Not decided (value computations): REGEX match semantics and anchoring, DATE/ISO8601 calendar validity, CONST equality across types, _parse_atom. The rules fix the present shape of the evaluators; "
+             "a behaviour-preserving rewrite into another idiom is reported as a violation of the shape rule rather than silently accepted - the accepted idioms are listed in each rule's message."),
+}
